@@ -1,6 +1,7 @@
 import Nstd.Args.LemmasExec
 import Nstd.Args.LemmasRead
 import Nstd.Args.LemmasSpec
+import Nstd.Args.LemmasKernel
 /-
   Property C20 -- theorems about the model of src/Process.cpp (Nstd/Args/Model.lean) and the
   specification (Nstd/Args/Spec.lean).  Bytes are natural numbers; 0 is the terminator,
@@ -179,15 +180,25 @@ example : openCommand [120, 32, 34, 97, 32, 98, 34] 5 [([75], [118])] =
 
 
 /-
-  OPEN: (run-time half of C20; needs a model of the kernel, which this framework does not have)
+  OPEN: (run-time half of C20 against the REAL kernel)
     "for every executable, argument list, environment and redirection mask: the started child observes
      argv = executable :: args.drop 1 and environ = the given environment, `join` returns the child's
      exit code, every byte the child writes to a redirected output stream is returned by `read` before
      end-of-file, and every byte given to `write` arrives on the child's stdin"
-  Proved below as `process_delivery_partial`: what `open`/`start` hand to execvpe (file, argv vector,
-  environment) and which pipes they request.  Missing: vfork/execvpe/pipe/dup2/waitpid/select/read/write
-  themselves -- that part is run against the real kernel by the correspondence check (ops `run`, `io`,
-  `exit`, `p`, `killtest`) and is tested, not proved.
+  Proved:
+   * `process_delivery_partial` -- what `open`/`start` hand to execvpe (file, argv vector, environment) and
+     which pipes they request;
+   * `open_pipe_ends_exact` -- after the pipe/vfork/dup2/close sequence of `open()` the parent holds exactly
+     its ends of the requested pipes and the child exactly the other ends as descriptors 0/1/2 (so end-of-file
+     can arrive), over a descriptor-table model of pipe/dup2/close/vfork;
+   * `pipe_protocol_delivers` -- over an abstract pipe model (bounded FIFO, partial reads and writes, end-of-file
+     when no write end is left) the protocol write-all / close stdin / read both streams to end-of-file / join
+     against a child that reads its input and then writes its outputs never deadlocks, always ends, and ends
+     with all three byte streams intact and the exit code delivered -- for every capacity >= 1, all payloads,
+     all chunkings and all schedules.
+  Missing (and not provable here): that Linux behaves like these two models, and that execvpe hands argv/envp
+  unchanged to the new program.  That is what the correspondence streams `run`, `io` (sizes around the real pipe
+  capacity), `exit`, `execfail`, `p`, `killtest` (descriptors of parent and child inspected through /proc) test.
 -/
 theorem process_delivery_partial (executable : Str) (args : List Str) (streams : Nat) (env : List (Str × Str)) :
     openList executable args streams env =
@@ -195,6 +206,55 @@ theorem process_delivery_partial (executable : Str) (args : List Str) (streams :
              env := if env = [] then none else some (env.map (fun kv => kv.1 ++ [61] ++ kv.2)),
              pipes := streams % 8 } :=
   argv_env_exact executable args streams env
+
+open Kernel in
+/-- descriptor discipline of `open()`: for every redirection mask, every base table without ends of the new
+    pipes and every choice of fresh descriptors by `pipe()` -- the parent holds the read end of the stdout /
+    stderr pipe exactly at `fdStdOutRead` / `fdStdErrRead` and the write end of the stdin pipe exactly at
+    `fdStdInWrite` (= the descriptor `pipe()` returned, see the last three clauses) and no other end; the child holds the write ends exactly as descriptors 1 / 2 and the read
+    end of the stdin pipe exactly as descriptor 0 and no other end; a stream that was not requested has no
+    pipe and the member is 0 -/
+theorem open_pipe_ends_exact (streams : Nat) (f : Fresh) (t : FdTable) (hf : f.Ok t) (ht : Plain t) :
+    let r := openFds streams f t
+    (∀ x, r.parent x = some (.rd 0) ↔ (Kernel.bit streams 1 = true ∧ x = f.outR)) ∧
+    (∀ x, r.parent x = some (.rd 1) ↔ (Kernel.bit streams 2 = true ∧ x = f.errR)) ∧
+    (∀ x, r.parent x = some (.wr 2) ↔ (Kernel.bit streams 4 = true ∧ x = f.inW)) ∧
+    (∀ x, r.parent x ≠ some (.wr 0) ∧ r.parent x ≠ some (.wr 1) ∧ r.parent x ≠ some (.rd 2)) ∧
+    (∀ x, r.child x = some (.wr 0) ↔ (Kernel.bit streams 1 = true ∧ x = 1)) ∧
+    (∀ x, r.child x = some (.wr 1) ↔ (Kernel.bit streams 2 = true ∧ x = 2)) ∧
+    (∀ x, r.child x = some (.rd 2) ↔ (Kernel.bit streams 4 = true ∧ x = 0)) ∧
+    (∀ x, r.child x ≠ some (.rd 0) ∧ r.child x ≠ some (.rd 1) ∧ r.child x ≠ some (.wr 2)) ∧
+    r.fdStdOutRead = (if Kernel.bit streams 1 then f.outR else 0) ∧
+    r.fdStdErrRead = (if Kernel.bit streams 2 then f.errR else 0) ∧
+    r.fdStdInWrite = (if Kernel.bit streams 4 then f.inW else 0) := by
+  exact openFds_ends streams f t hf ht
+
+open Kernel in
+/-- delivery over the abstract pipe model: from the initial state (payload `P` to write, child data `O`
+    for stdout and `E` for stderr, exit code `c`, pipe capacity `cap >= 1`) every reachable state `s`, whatever
+    the scheduler and the sizes of partial transfers were,
+    (1) can take another step unless `join` has returned (no deadlock),
+    (2) has a smaller measure than its predecessor (every run is finite), and
+    (3) once `join` has returned: the child has read exactly `P`, the parent has read exactly `O` and `E`
+        before end-of-file, and `join` delivered `c` -/
+theorem pipe_protocol_delivers (cap : Nat) (hcap : 0 < cap) (P O E : List Nat) (c : Nat) (s : Sys)
+    (h : Reach (Sys.init cap P O E c) s) :
+    (s.pPhase ≠ .joined → ∃ s', Step s s') ∧
+    (∀ s', Step s s' → s'.measure < s.measure) ∧
+    (s.pPhase = .joined → s.gotIn = P ∧ s.gotOut = O ∧ s.gotErr = E ∧ s.code = some c) :=
+  ⟨progress (Inv.reach h) hcap, fun _ hs => step_decreases hs, delivered (Inv.reach h)⟩
+
+-- the hypotheses are satisfiable: descriptors 3..8 on a table with 0, 1, 2; a three-step run
+example : (Kernel.Fresh.mk 3 4 5 6 7 8).Ok (fun x => if x < 3 then some (.other x) else none) := by
+  refine ⟨by decide, ?_⟩
+  intro x hx
+  simp at hx
+  rcases hx with rfl | rfl | rfl | rfl | rfl | rfl <;> simp
+example : Kernel.Plain (fun x => if x < 3 then some (.other x) else none) := by
+  intro x p; by_cases h : x < 3 <;> simp [h]
+example : Kernel.Reach (Kernel.Sys.init 1 [7] [] [] 0)
+    { Kernel.Sys.init 1 [7] [] [] 0 with inQ := [] ++ [7].take 1, toSend := [7].drop 1 } :=
+  .step .init (Kernel.Step.pWrite _ 1 rfl (by decide) (by decide) (by decide))
 
 /-! ### environment of the own process -/
 
